@@ -9,7 +9,8 @@ From Dastard Require Import Common.ZX Common.CaseLib C07.Model C07.Spec.
 
 Inductive case :=
 | GateCase (cap bsize : Z) (tickmode : bool) (h : list (act * obs))
-| PipeCase (hdr : list Z) (recs : list (list Z * bool)) (strm : list Z) (hung : bool)
+| PipeCase (hdr : list seg) (recs : list (list seg * bool)) (strm : list seg) (hung : bool)
+| FlushCase (files : list (list Z * list (list Z) * list (Z * list Z)))
 | PubCase (hdr : list Z) (recs : list (list Z)) (strm : list Z) (hung : bool).
 
 (* ---------- programs of the two threads ---------- *)
@@ -83,6 +84,7 @@ Definition apply_act (tickmode : bool) (s : st) (a : act) : st * list (list Z) :
   | ARel => drain tickmode 1 s []
   | ADrain => drain tickmode (2 * length (q s) + 8) s []
   | ATick => (settle' tickmode (sstep s TTick), [])
+  | AHold => (settle' tickmode s, [])
   end.
 
 Definition model_obs (s s' : st) (a : act) (done : list (list Z)) : obs :=
@@ -125,6 +127,12 @@ Fixpoint first_diff (i : Z) (a b : list obs) : Z :=
   | _, _ => i
   end.
 
+Definition pipe_expected (hdr : list seg) (recs : list (list seg * bool)) : list seg :=
+  hdr ++ flat_map fst (filter snd recs).
+Definition pipe_fast (hdr : list seg) (recs : list (list seg * bool)) (strm : list seg) (hung : bool) : bool :=
+  let e := pipe_expected hdr recs in
+  negb hung && segs_eqb (S (length strm + length e)) strm e.
+
 Definition verdict (c : case) : Z * Z :=
   match c with
   | GateCase cap bsize tm h =>
@@ -134,8 +142,14 @@ Definition verdict (c : case) : Z * Z :=
       let d := first_diff 0 impl model in
       (verdict_code (d =? -1) (C07_check_gate h), d)
   | PipeCase hdr recs strm hung =>
-      (* trace inclusion: the observed trace must be one the specification allows *)
-      let ok := C07_check_pipe hdr recs strm hung in
+      (* trace inclusion: the observed trace must be one the specification allows.  Streams of many
+         megabytes are first compared run by run (sound: Variant.pipe_fast_path_sound); only when that
+         does not accept are they expanded and judged by C07_check_pipe itself *)
+      let ok := if pipe_fast hdr recs strm hung then true
+                else C07_check_pipe (expand hdr) (map (fun rb => (expand (fst rb), snd rb)) recs) (expand strm) hung in
+      (verdict_code ok ok, if ok then -1 else 0)
+  | FlushCase files =>
+      let ok := forallb (fun f => C07_check_flush (fst (fst f)) (snd (fst f)) (snd f)) files in
       (verdict_code ok ok, if ok then -1 else 0)
   | PubCase hdr recs strm hung =>
       let ok := C07_check_pipe_sub hdr recs strm hung in
@@ -162,6 +176,12 @@ Definition mkG (cap bsize : Z) (tm : bool) (writes : list (list seg)) (h : list 
   let tbl := map expand writes in
   GateCase cap bsize tm (map (fun ao => (fst ao, resolve tbl (snd ao))) h).
 Definition mkP (hdr : list seg) (recs : list (list (list seg * bool))) (strm : list (list seg)) (hung : bool) : case :=
-  PipeCase (expand hdr) (map (fun rb => (expand (fst rb), snd rb)) (concat recs)) (expand (concat strm)) hung.
+  PipeCase hdr (concat recs) (concat strm) hung.
+Definition Hd r d0 d1 gate ret ex : act * iobs := (AHold, mko r d0 d1 gate ret ex).
+(* one file of a multi-format case: header, records, (records written, contents) at each flush return *)
+Definition mkF (hdr : list seg) (recs : list (list seg)) (snaps : list (Z * list (list seg)))
+  : list Z * list (list Z) * list (Z * list Z) :=
+  (expand hdr, map expand recs, map (fun ns => (fst ns, expand (concat (snd ns)))) snaps).
+Definition mkFC (files : list (list Z * list (list Z) * list (Z * list Z))) : case := FlushCase files.
 Definition mkPS (hdr : list seg) (recs : list (list (list seg))) (strm : list (list seg)) (hung : bool) : case :=
   PubCase (expand hdr) (map expand (concat recs)) (expand (concat strm)) hung.
